@@ -913,6 +913,9 @@ func stateWrites(w *World, fn *ssa.Function, exclude map[string]bool) []ssa.Inst
 	allInstrs(fn, func(in ssa.Instruction) {
 		switch x := in.(type) {
 		case *ssa.Store:
+			if isLocalCell(x.Addr) {
+				return
+			}
 			s := c.S(x.Addr)
 			if strings.HasPrefix(s, "P0.") {
 				f := strings.FieldsFunc(s[3:], func(r rune) bool { return r == '.' || r == '[' })[0]
@@ -945,6 +948,9 @@ func fieldsWritten(w *World, fn *ssa.Function) map[string]bool {
 	allInstrs(fn, func(in ssa.Instruction) {
 		switch x := in.(type) {
 		case *ssa.Store:
+			if isLocalCell(x.Addr) {
+				return
+			}
 			note(c.S(x.Addr))
 		case *ssa.MapUpdate:
 			note(c.S(x.Map))
@@ -1246,5 +1252,27 @@ func ruleIDCounter(r *Run, rule string) {
 	}
 	if n < 2 {
 		r.add(rule, "id-counter:floor", "-", fmt.Sprintf("%d atomic increments of the id counter, floor is 2", n), Floor)
+	}
+}
+
+// isLocalCell reports whether an address denotes (part of) a local variable cell rather than memory reachable
+// from a parameter: a range variable spilled to an alloc, a composite literal under construction, …
+func isLocalCell(addr ssa.Value) bool {
+	for {
+		switch x := addr.(type) {
+		case *ssa.Alloc:
+			return true
+		case *ssa.FieldAddr:
+			addr = x.X
+		case *ssa.IndexAddr:
+			// indexing into an array cell stays local; indexing a slice value leaves the cell
+			if _, ok := x.X.Type().Underlying().(*types.Pointer); ok {
+				addr = x.X
+			} else {
+				return false
+			}
+		default:
+			return false
+		}
 	}
 }
